@@ -30,8 +30,8 @@ CHECKS = {
    "Every quiescent point of generated sequential histories and the join point of explored concurrent executions (every program family) is checked: iteration = lookups = len, and the inspector's structural well-formedness predicate.",
    "The inspector reads raw pointers while nothing is in flight. Trusted base as C01 for the concurrent part.",
    "invariant checking at quiescent points of generated histories (proptest + controlled schedules)", "DESIGN.md §4 C05"),
- "C06": ("E1+inspector", "exploration",
-   "Collision-only generators with adversarial insertion/removal orders; after every step red-black/list consistency of every tree bin and a comparison-count bound for lookups measured by the key type.",
+ "C06": ("E1+E2+inspector", "exploration",
+   "Collision-only generators with adversarial insertion/removal orders; after every step red-black/list consistency of every tree bin and a comparison-count bound for lookups measured by the key type; the same oracles after every explored schedule of concurrent programs that contend for, migrate or convert a tree bin (incl. 1-129 readers registered in one bin).",
    "Comparison counts are those of the instrumented key type; bound ceil(4*log2(n+1))+2.",
    "property-based testing with structural invariants and a counted-comparisons oracle", "DESIGN.md §4 C06"),
  "C07": ("E1+E2+probes", "exploration",
@@ -59,15 +59,15 @@ CHECKS = {
    "The step bound 20000 separates legitimate reads from a reader that waits. As C01.",
    "suspension-point enumeration with isolated reader probes", "DESIGN.md §4 C12"),
  "C13": ("E2+E3", "exploration",
-   "retain / retain_force racing writers; rejected pairs become conditional / forced removals inside the linearizability search; sequential agreement with BTreeMap::retain.",
+   "retain / retain_force racing writers, single and consecutive resizes, the first operations on an unallocated map and long random-tape histories; rejected pairs become conditional / forced removals inside the linearizability search; sequential agreement with BTreeMap::retain.",
    "As C01; predicates are pure.",
    "controlled-schedule testing with a linearizability oracle extended by conditional removals", "DESIGN.md §4 C13"),
- "C14": ("E1+inspector", "exploration",
-   "Exhaustive capacity/reserve sweep over an enumerable range plus generated sequences with a table-length policy predicate after every operation.",
+ "C14": ("E1+E2+inspector", "exploration",
+   "Exhaustive capacity/reserve sweep over an enumerable range plus generated sequences with a table-length policy predicate after every operation; after every explored schedule of concurrent programs (first operations racing on an unallocated map, resizes with one and several helpers) the idle threshold and the growth rule are re-checked by inserting fresh keys from the main thread.",
    "Capacities above 2^21 not exercised.",
    "enumeration + property-based testing with a table-length policy oracle", "DESIGN.md §4 C14"),
  "C15": ("E2+E5", "exploration",
-   "Vector-clock happens-before audit of every key/value hand-over that occurs in the explored executions, from the orderings the code passes to its atomics and its bin locks.",
+   "Vector-clock happens-before audit of every key/value hand-over that occurs in the explored executions, from the orderings the code passes to its atomics (a failed compare-exchange counts with its failure ordering) and its bin locks.",
    "Sequentially consistent executions only: audits synchronisation on executed reads-from pairs, does not generate weak-memory behaviours; seize fences not modelled.",
    "controlled-schedule testing with a vector-clock happens-before monitor", "DESIGN.md §4 C15"),
  "C16": ("E6", "exploration",
@@ -82,9 +82,9 @@ CHECKS = {
    "Panic injected at every callback index of compute_if_present / retain / retain_force / iterator loops over generated prefixes; aftermath checked with model, inspector (no lock held) and cross-thread writes.",
    "The faulting operation is deterministic given the prefix.",
    "fault injection at every callback index over generated histories", "DESIGN.md §4 C18"),
- "C19": ("E7", "exploration",
-   "Grammar-generated JSON documents (repetitions, ill-typed, damaged) deserializers reporting generated and wild size hints, and item multisets on 1-8 thread pools; no panic, round trip equality, sequential key set.",
-   "serde_json only; rayon scheduling sampled, not controlled.",
+ "C19": ("E7+E2", "exploration",
+   "Grammar-generated JSON documents (repetitions, ill-typed, damaged) deserializers reporting generated and wild size hints, item multisets on 1-8 thread pools and long duplicate-heavy parallel inputs with forced job lengths; no panic, round trip equality, sequential key set; a map serialised while scheduled threads update it must give a well-formed, weakly consistent document (JSON and a length-trusting format).",
+   "serde_json plus a minimal length-trusting serde format written for the check; rayon scheduling sampled, not controlled.",
    "grammar-based property testing with round-trip and differential oracles", "DESIGN.md §4 C19"),
 }
 PLANNED = {}
@@ -120,7 +120,7 @@ def main():
         },
         "engines": [
             {"name": "E1", "path": "harness/src/seq.rs", "serves_properties": ["C02", "C03", "C04", "C05", "C06", "C10", "C13", "C14", "C18"], "kind_free_text": "sequential model-based engine (proptest strategies, BTreeMap reference, inspector oracles, drop ledger, canaries, fault injection)"},
-            {"name": "E2", "path": "harness/src/sched.rs", "serves_properties": ["C01", "C03", "C04", "C05", "C07", "C08", "C10", "C11", "C12", "C13", "C15"], "kind_free_text": "serialising scheduler over flurry's cfg-gated hooks: real threads, one token, bounded-preemption enumeration, random tapes, isolated-reader probes"},
+            {"name": "E2", "path": "harness/src/sched.rs", "serves_properties": ["C01", "C03", "C04", "C05", "C06", "C07", "C08", "C10", "C11", "C12", "C13", "C14", "C15", "C18", "C19"], "kind_free_text": "serialising scheduler over flurry's cfg-gated hooks: real threads, one token, bounded-preemption enumeration, random tapes, isolated-reader probes"},
             {"name": "E3", "path": "harness/src/lin.rs", "serves_properties": ["C01", "C08", "C13"], "kind_free_text": "per-key Wing-Gong linearizability checker"},
             {"name": "E4", "path": "harness/src/alloc.rs", "serves_properties": ["C03"], "kind_free_text": "quarantine/poison global allocator + canaries + retire-time reachability"},
             {"name": "E5", "path": "harness/src/hb.rs", "serves_properties": ["C15"], "kind_free_text": "vector-clock happens-before monitor over the hook stream"},
